@@ -100,14 +100,26 @@ def _hx(b, limit=200):
 
 
 def lc(n, b):
-    """length class of n relative to a block / digest size b"""
-    if n <= 2:
+    """output-length class of n relative to a PRF / digest size b: number of blocks (capped) and remainder class"""
+    if n <= 1:
         return str(n)
     if n < b - 1:
         return "<b"
     q, r = divmod(n, b)
     rc = "0" if r == 0 else "1" if r == 1 else "b-1" if r == b - 1 else "r"
-    return "%db+%s" % (q, rc)
+    return "%sb+%s" % (q if q < 4 else "4..", rc)
+
+
+def cc(n, b):
+    """input-length class of n relative to a block size b"""
+    if n <= 1:
+        return str(n)
+    return "<b" if n < b - 1 else "b-1" if n == b - 1 else "b" if n == b else "b+1" if n == b + 1 else ">b"
+
+
+def kc(count):
+    """iteration-count class"""
+    return count if count <= 3 else "4..9" if count < 10 else "10..99" if count < 100 else "100..999" if count < 1000 else ">=1000"
 
 
 def rbytes(rng, n, style=None):
@@ -325,8 +337,7 @@ def pbkdf2_case(ctx, env, hlabel, pw, salt, dklen, count, pw_str=False, salt_str
     ctx.count("pbkdf2_fast_path" if fast else "pbkdf2_generic_path")
     ctx.count("fn_PBKDF2_fast" if fast else ("fn_PBKDF2_prf" if prf else "fn_PBKDF2_generic_hash"))
     ctx.count("pbkdf2_%s_%s" % (path, plabel))
-    ctx.case(("PBKDF2", path, plabel, lc(len(pw), bs), lc(len(salt), 16), lc(dklen, hl), min(count, 1000) if count < 50 or count >= 1000 else "mid",
-              pw_str, salt_str))
+    ctx.case(("PBKDF2", path, plabel, cc(len(pw), bs), cc(len(salt), 16), lc(dklen, hl), kc(count), pw_str, salt_str))
     w = lambda: {"call": "PBKDF2", "hash_or_prf": plabel, "path": path, "password": _hx(a_pw), "salt": _hx(a_salt), "dkLen": dklen,
                  "count": count, "password_is_str": pw_str, "salt_is_str": salt_str}
     got_value(ctx, "PBKDF2", o, expected, "PBKDF2:%s-path:wrong-value" % path,
@@ -359,14 +370,16 @@ def w_pbkdf2_fast(spec, ctx, env):
         pbkdf2_case(ctx, env, h, rbytes(rng, plen), rbytes(rng, slen), dklen, count,
                     pw_str=(gi // of) % 4 == 1, salt_str=(gi // of) % 6 == 2)
     # ---- random
-    counts = [1, 1, 2, 2, 3, 3, 4, 5, 6, 8, 10, 17, 33, 100, 255, 256, 257, 1000] + ([] if q else [1000, 4096, 10000])
+    counts = [1, 1, 2, 2, 3, 3, 4, 5, 6, 8, 10, 17, 33, 100, 255, 256, 257]
+    big = [1000] if q else [1000, 1000, 4096, 10000]
     while not ctx.expired():
         h = rng.choice(ASSISTED)
         bs, hl = env.hashes.HASHES[HASHMODS[h]][1:3]
         plen = rng.choice([0, 1, 2, 8, 20, bs - 1, bs, bs + 1, 2 * bs, 200, rng.randrange(0, 201)])
         slen = rng.choice([0, 1, 8, 16, 17, 64, 100, rng.randrange(0, 101)])
         dklen = rng.choice(pbkdf2_lengths(hl) + [rng.randrange(1, 5 * hl + 2)] * 4)
-        pbkdf2_case(ctx, env, h, rbytes(rng, plen), rbytes(rng, slen), dklen, rng.choice(counts),
+        count = rng.choice(big) if rng.random() < 0.04 else rng.choice(counts)
+        pbkdf2_case(ctx, env, h, rbytes(rng, plen), rbytes(rng, slen), dklen, count,
                     pw_str=rng.random() < 0.25, salt_str=rng.random() < 0.2)
 
 
@@ -416,7 +429,8 @@ def w_pbkdf2_generic(spec, ctx, env):
         slen = [0, 1, 8, 16, 100][gi // of % 5]
         pbkdf2_case(ctx, env, h, rbytes(rng, plen), rbytes(rng, slen), dklen, count,
                     pw_str=(gi // of) % 4 == 1, salt_str=(gi // of) % 6 == 2, prf=p)
-    counts = [1, 1, 2, 2, 3, 3, 4, 5, 6, 8, 10, 17, 33, 100] + ([1000] if q else [255, 256, 1000, 1000, 10000])
+    counts = [1, 1, 2, 2, 3, 3, 4, 5, 6, 8, 10, 17, 33, 100]
+    big = [1000] if q else [255, 256, 1000, 1000, 10000]
     while not ctx.expired():
         if rng.random() < 0.4:
             h, p = None, rng.choice(prfs)
@@ -429,7 +443,7 @@ def w_pbkdf2_generic(spec, ctx, env):
         plen = rng.choice([0, 1, 2, 8, 20, bs - 1, bs, bs + 1, 2 * bs, 200, rng.randrange(0, 201)])
         slen = rng.choice([0, 1, 8, 16, 17, 64, 100, rng.randrange(0, 101)])
         dklen = rng.choice(pbkdf2_lengths(hl) + [rng.randrange(1, 5 * hl + 2)] * 4)
-        count = rng.choice(counts)
+        count = rng.choice(big) if rng.random() < 0.03 else rng.choice(counts)
         if slow:
             count = min(count, 100)
             dklen = min(dklen, 3 * hl + 1)
@@ -474,8 +488,8 @@ def pbkdf1_case(ctx, env, h, pw, salt, dklen, count, pw_str=False, as_object=Fal
         o = outcome(lambda: KDF.PBKDF1(a_pw, salt, dklen, count, algo))
     ctx.count("fn_PBKDF1")
     ctx.count("pbkdf1_" + h)
-    ctx.case(("PBKDF1", h, lc(len(pw), 64), lc(dklen, hl), min(count, 1000) if count < 20 or count >= 1000 else "mid", pw_str,
-              as_object, default_hash))
+    ctx.case(("PBKDF1", h, cc(len(pw), 64), "hLen" if dklen == hl else "hLen-1" if dklen == hl - 1 else "1" if dklen == 1 else "<hLen",
+              kc(count), pw_str, as_object, default_hash))
     w = lambda: {"call": "PBKDF1", "hash": h, "hash_as_object": as_object, "password": _hx(a_pw), "salt": salt.hex(), "dkLen": dklen,
                  "count": count}
     got_value(ctx, "PBKDF1", o, expected, "PBKDF1:wrong-value", "PBKDF1 output differs from RFC 8018 sec. 5.1", w)
@@ -546,8 +560,9 @@ def hkdf_case(ctx, env, h, master, salt, context, key_len, num_keys):
     ctx.count("hkdf_" + h)
     if total == 255 * hl:
         ctx.count("hkdf_at_limit")
-    ctx.case(("HKDF", h, lc(len(master), bs), lc(len(salt), bs), "none" if context is None else lc(len(context), bs),
-              lc(total, hl) if total < 255 * hl else "255b", total == 255 * hl, num_keys))
+    ctx.case(("HKDF", h, cc(len(master), bs), cc(len(salt), bs), "none" if context is None else cc(len(context), 16),
+              lc(total, hl) if total < 254 * hl else "254b+%d" % (total - 254 * hl) if total in (254 * hl, 254 * hl + 1) else
+              "255b-1" if total == 255 * hl - 1 else "255b" if total == 255 * hl else "254b..255b", num_keys))
     w = lambda: {"call": "HKDF", "hash": h, "master": _hx(master), "salt": _hx(salt), "context": None if context is None else _hx(context),
                  "key_len": key_len, "num_keys": num_keys}
     kw = {} if context is None else {"context": context}
@@ -624,7 +639,7 @@ def scrypt_case(ctx, env, pw, salt, key_len, N, r, p, num_keys, as_str=False):
     ctx.count("scrypt_N%d" % N)
     ctx.count("scrypt_r%d" % r if r in (1, 2, 8) else "scrypt_r_other")
     ctx.count("scrypt_p%d" % p if p in (1, 2, 3) else "scrypt_p_other")
-    ctx.case(("scrypt", N, r, p, lc(len(pw), 64), lc(len(salt), 64), lc(total, 32), num_keys, as_str))
+    ctx.case(("scrypt", N, r, p, cc(len(pw), 64), cc(len(salt), 64), lc(total, 32), num_keys, as_str))
     w = lambda: {"call": "scrypt", "password": _hx(a_pw), "salt": _hx(a_salt), "key_len": key_len, "N": N, "r": r, "p": p,
                  "num_keys": num_keys}
     o1 = outcome(lambda: KDF.scrypt(a_pw, a_salt, total, N, r, p))
@@ -982,7 +997,7 @@ def w_sp800_108(spec, ctx, env):
         ctx.op("SP800_108", pname, len(master), key_len, num_keys, len(label), len(context))
         ctx.count("fn_SP800_108_" + fam)
         ctx.count("sp800_" + pname)
-        ctx.case(("SP800_108", pname, lc(len(master), 64), lc(total, hl), num_keys, lc(len(label), 16), lc(len(context), 16)))
+        ctx.case(("SP800_108", pname, cc(len(master), 64), lc(total, hl), num_keys, cc(len(label), 16), cc(len(context), 16)))
         w = lambda: {"call": "SP800_108_Counter", "prf": pname, "master": _hx(master), "key_len": key_len, "num_keys": num_keys,
                      "label": _hx(label), "context": _hx(context)}
         kw = {}
@@ -1075,7 +1090,7 @@ def s2v_case(ctx, env, key, comps, key_suffix="", what=None):
     o = outcome(lib)
     ctx.count("fn_S2V")
     ctx.count("s2v_components_%s" % (len(comps) if len(comps) <= 5 else "many"))
-    ctx.case(("S2V", len(key), tuple(lc(len(x), 16) for x in comps) if len(comps) <= 5 else len(comps)), nontrivial=True)
+    ctx.case(("S2V", len(key), tuple(cc(len(x), 16) for x in comps) if len(comps) <= 5 else "n>5"), nontrivial=True)
     w = lambda: {"call": "_S2V.new(key, AES); update(c) for c in components; derive()", "key": key.hex(),
                  "components": [_hx(x, 128) for x in comps[:8]], "n_components": len(comps)}
     got_value(ctx, "S2V", o, expected, "S2V%s:wrong-value" % key_suffix, what or "S2V output differs from RFC 5297 sec. 2.4", w)
